@@ -8,6 +8,7 @@ package verifrt
 import (
 	"runtime"
 	"sync/atomic"
+	"time"
 )
 
 // SiteInfo describes one instrumented statement.
@@ -46,7 +47,19 @@ var (
 	// served "at the same time" on one P really interleave at statement level
 	preemptEvery atomic.Uint64
 	Preemptions  atomic.Uint64
+
+	stallAt  atomic.Uint64
+	stallDur atomic.Int64
+	Stalls   atomic.Uint64
 )
+
+// SetStall makes the goroutine that executes the at-th instrumented statement
+// since the last ResetMeter sleep for d (shared mode; inside a synctest bubble
+// this is fake time: a slow or descheduled handler). at = 0 disarms.
+func SetStall(at uint64, d time.Duration) {
+	stallDur.Store(int64(d))
+	stallAt.Store(at)
+}
 
 // SetPreempt arms (n > 0) or disarms (0) forced yields in shared mode.
 func SetPreempt(n uint64) { preemptEvery.Store(n) }
@@ -107,6 +120,10 @@ func Yield(site int) {
 		if c := sharedCap.Load(); c != 0 && m > c && (m-c)%4096 == 1 {
 			sharedTripped.Store(true)
 			panic(WorkCapTrip{m})
+		}
+		if st := stallAt.Load(); st != 0 && m == st {
+			Stalls.Add(1)
+			time.Sleep(time.Duration(stallDur.Load()))
 		}
 		if pe := preemptEvery.Load(); pe != 0 && m%pe == 0 {
 			Preemptions.Add(1)
